@@ -604,10 +604,10 @@ pub fn c17(cfg: &Cfg) -> i32 {
     });
     let mut sink = sink;
     {
-        let mix = Mix { w1: (60, 2000), w2: (120, 4000), w3: (20, 500), w7: (5, 100), ..Mix::default() };
+        let mix = Mix { w1: (300, 4000), w2: (600, 8000), w3: (100, 1000), w7: (25, 200), ..Mix::default() };
         sink.merge(run_mix(cfg, &mix, &|| Box::new(C17Play::default())));
     }
-    let mut rep = report("pairs_compared", "W11: for each base state (empty board, opening array, random legal positions with random side / step / status) the finite space of one-feature changes is enumerated completely: all 13 contents of each of the 64 squares and each of the 12 piece kinds on every square empty in the base (in the base's own context and in a random side/step/status context per family), and side, step and status each varied in every combination of the other two (2 564 + 1 282 + 8 families per base); states are built with GameState::new / PlayPhase::new and all hashes within a family must be pairwise distinct. Second part, on states reached by play (W1/W2/W3/W7 games): the hash the engine carries after every step must differ from the from-scratch hash of every variant that differs in the content of the source, destination or a trap square, in the side, the step or the status (a captured piece left in the hash would make 'trap empty' collide with 'piece still there'). distinct_nontrivial = distinct hash values seen.", vec![floor("bases", 30, 8000), floor("pairs_status", 8 * 205_120 * 30, 8 * 205_120 * 8000), floor("pairs_square_content", 2 * 64 * 78 * 30, 2 * 64 * 78 * 8000), floor("pairs_step", 6 * 1282 * 30, 6 * 1282 * 8000), floor("pairs_side", 2564 * 30, 2564 * 8000), floor("reached_states_checked_against_local_variants", 100_000, 2_500_000), floor("reached_states_right_after_a_capture", 5000, 100_000)], &["states are built with the public constructors, as the property says"]);
+    let mut rep = report("pairs_compared", "W11: for each base state (empty board, opening array, random legal positions with random side / step / status) the finite space of one-feature changes is enumerated completely: all 13 contents of each of the 64 squares and each of the 12 piece kinds on every square empty in the base (in the base's own context and in a random side/step/status context per family), and side, step and status each varied in every combination of the other two (2 564 + 1 282 + 8 families per base); states are built with GameState::new / PlayPhase::new and all hashes within a family must be pairwise distinct. Second part, on states reached by play (W1/W2/W3/W7 games): the hash the engine carries after every step must differ from the from-scratch hash of every variant that differs in the content of the source, destination or a trap square, in the side, the step or the status (a captured piece left in the hash would make 'trap empty' collide with 'piece still there'). distinct_nontrivial = distinct hash values seen.", vec![floor("bases", 30, 8000), floor("pairs_status", 8 * 205_120 * 30, 8 * 205_120 * 8000), floor("pairs_square_content", 2 * 64 * 78 * 30, 2 * 64 * 78 * 8000), floor("pairs_step", 6 * 1282 * 30, 6 * 1282 * 8000), floor("pairs_side", 2564 * 30, 2564 * 8000), floor("reached_states_checked_against_local_variants", 400_000, 5_000_000), floor("reached_states_right_after_a_capture", 20_000, 200_000)], &["states are built with the public constructors, as the property says"]);
     rep.exhaustive = Some(true);
     rep.extra.insert("exhaustive_scope".into(), json!("per base state, the space of one-feature changes named in the property is enumerated completely; the bases themselves are sampled"));
     conclude(cfg, sink, rep)
